@@ -46,6 +46,8 @@ def ext_attr(it, o, name):
         return PI
     if d == "numpy.newaxis":
         return None
+    if d == "math.pi":
+        return ext_attr(it, ExtRef("numpy"), "pi")
     if o.dotted == "numpy" and name in DTYPES:
         return DType(name)
     if d in ("numpy.math", "scipy.interpolate.interp2d"):
@@ -2040,3 +2042,218 @@ def _np_squeeze(it, a, **kw):
     A = as_arr(it, a)
     keep = [k for k, d in enumerate(A.shape) if not (is_conc(d) and _num(d) == 1)]
     return reshape(it, A, [A.shape[k] for k in keep])
+
+
+# ----------------------------------------------------------------------------- more NumPy / math functions (value-preserving rewrites of
+# the same computations: function forms of operators, *_like constructors, axis permutations, tiling, cumulative sums, math.*)
+
+def _np_binary(opname, label):
+    def f(it, a, b, *rest, **kw):
+        if rest or kw.get("out") is not None or kw.get("where") is not None:
+            raise Unsupported("numpy.%s with out= / where= / extra arguments" % label)
+        if isinstance(a, (list, tuple)):
+            a = array(it, a)
+        if isinstance(b, (list, tuple)):
+            b = array(it, b)
+        return it.binop(opname, a, b)
+    return f
+
+
+for _n, _op in (("add", "Add"), ("subtract", "Sub"), ("multiply", "Mult"), ("divide", "Div"), ("true_divide", "Div"), ("power", "Pow"), ("float_power", "Pow")):
+    EXT["numpy." + _n] = _np_binary(_op, _n)
+EXT["numpy.negative"] = _elementwise("negative", lambda it, v: s_neg(v))
+
+
+def _like(kind):
+    def f(it, a, dtype=None, **kw):
+        A = as_arr(it, a)
+        dt = dtype_name(dtype) or A.dtype
+        shp = list(A.shape)
+        if kind == "empty":
+            return sym_arr(fresh_name("uninit"), shp, dt if dt != "bool" else "float") if shp else Arr([], lambda idx: 0, dt)
+        v = 0 if kind == "zeros" else 1
+        if dt == "complex":
+            v = Cx(v, 0)
+        return const_arr(shp, v, dt)
+    return f
+
+
+EXT["numpy.zeros_like"] = _like("zeros")
+EXT["numpy.ones_like"] = _like("ones")
+EXT["numpy.empty_like"] = _like("empty")
+
+
+@ext("numpy.full")
+def _np_full(it, shape, fill_value, dtype=None, **kw):
+    shp = shape_arg(it, shape)
+    for d in shp:
+        it.ctx.definedness(cmp(">=", d, 0), "non-negative dimension")
+    if not is_scalar(fill_value):
+        raise Unsupported("numpy.full with a non-scalar fill value")
+    return const_arr(shp, fill_value, dtype_name(dtype) or elem_dtype(fill_value))
+
+
+@ext("numpy.full_like")
+def _np_full_like(it, a, fill_value, dtype=None, **kw):
+    A = as_arr(it, a)
+    if not is_scalar(fill_value):
+        raise Unsupported("numpy.full_like with a non-scalar fill value")
+    return const_arr(list(A.shape), fill_value, dtype_name(dtype) or A.dtype)
+
+
+@ext("numpy.copy")
+def _np_copy(it, a, **kw):
+    return as_arr(it, a).frozen()
+
+
+@ext("numpy.ascontiguousarray")
+def _np_ascontig(it, a, dtype=None, **kw):
+    return EXT["numpy.asarray"](it, a, dtype)
+
+
+@ext("numpy.ndim")
+def _np_ndim(it, a):
+    return as_arr(it, a).ndim
+
+
+@ext("numpy.size")
+def _np_size(it, a, axis=None):
+    A = as_arr(it, a)
+    return A.size() if axis is None else A.shape[int(axis)]
+
+
+@ext("numpy.var", "numpy.std")
+def _np_var(it, a, *args, **kw):
+    raise RuntimeError("replaced below")
+
+
+EXT["numpy.var"] = lambda it, a, *args, **kw: arr_method(it, as_arr(it, a), "var", list(args), dict(kw))
+EXT["numpy.std"] = lambda it, a, *args, **kw: arr_method(it, as_arr(it, a), "std", list(args), dict(kw))
+
+
+def permute_axes(it, A, perm):
+    """result axis k is input axis perm[k] (a view, like numpy.transpose(A, perm))"""
+    n = A.ndim
+    perm = [int(p) % n for p in perm]
+    if sorted(perm) != list(range(n)):
+        raise PyException("ValueError", "axes don't match array")
+    inv = [perm.index(j) for j in range(n)]
+    return A.view([A.shape[p] for p in perm], lambda idx: [idx[inv[j]] for j in range(n)], lambda bidx: (True, [bidx[p] for p in perm]))
+
+
+def _axis_int(x, n, what):
+    if not (is_conc(x) and Fraction(_num(x)).denominator == 1):
+        raise Unsupported("%s: symbolic axis" % what)
+    x = int(_num(x))
+    if not -n <= x < n:
+        raise PyException("AxisError", "%s: axis %d is out of bounds for array of dimension %d" % (what, x, n))
+    return x % n
+
+
+@ext("numpy.moveaxis")
+def _np_moveaxis(it, a, source, destination):
+    A = as_arr(it, a)
+    n = A.ndim
+    src = [_axis_int(s, n, "moveaxis") for s in (source if isinstance(source, (list, tuple)) else [source])]
+    dst = [_axis_int(d, n, "moveaxis") for d in (destination if isinstance(destination, (list, tuple)) else [destination])]
+    if len(src) != len(dst):
+        raise PyException("ValueError", "moveaxis: source and destination must have the same number of elements")
+    order = [k for k in range(n) if k not in src]
+    for d, s in sorted(zip(dst, src)):
+        order.insert(d, s)
+    return permute_axes(it, A, order)
+
+
+@ext("numpy.swapaxes")
+def _np_swapaxes(it, a, ax1, ax2):
+    A = as_arr(it, a)
+    n = A.ndim
+    i, j = _axis_int(ax1, n, "swapaxes"), _axis_int(ax2, n, "swapaxes")
+    perm = list(range(n))
+    perm[i], perm[j] = perm[j], perm[i]
+    return permute_axes(it, A, perm)
+
+
+def _np_transpose2(it, a, axes=None):
+    A = as_arr(it, a)
+    if axes is None:
+        return transpose(it, A)
+    return permute_axes(it, A, [_axis_int(x, A.ndim, "transpose") for x in axes])
+
+
+EXT["numpy.transpose"] = _np_transpose2
+
+
+@ext("numpy.flip")
+def _np_flip(it, a, axis=None):
+    A = as_arr(it, a)
+    axes = list(range(A.ndim)) if axis is None else [_axis_int(x, A.ndim, "flip") for x in (axis if isinstance(axis, (list, tuple)) else [axis])]
+    shp = list(A.shape)
+
+    def m(idx):
+        return [r_sub(r_sub(shp[k], 1), i) if k in axes else i for k, i in enumerate(idx)]
+    return A.view(shp, m, lambda bidx: (True, m(bidx)))
+
+
+@ext("numpy.tile")
+def _np_tile(it, a, reps):
+    A = as_arr(it, a)
+    reps = list(reps) if isinstance(reps, (list, tuple)) else [reps]
+    for r_ in reps:
+        if not is_conc(r_) and not is_z3(r_):
+            raise Unsupported("numpy.tile repetitions")
+    n = max(A.ndim, len(reps))
+    shp_in = [1] * (n - A.ndim) + list(A.shape)
+    reps = [1] * (n - len(reps)) + reps
+    for r_ in reps:
+        it.ctx.definedness(cmp(">=", r_, 0), "non-negative repetition count")
+    src = A.snapshot()
+    lead = n - A.ndim
+
+    def f(idx):
+        inner = []
+        for k in range(lead, n):
+            d = shp_in[k]
+            inner.append(idx[k] if (is_conc(reps[k]) and _num(reps[k]) == 1) else it.mod(idx[k], d))
+        return src(inner)
+    return Arr([r_mul(d, r_) for d, r_ in zip(shp_in, reps)], f, A.dtype)
+
+
+@ext("numpy.outer")
+def _np_outer(it, a, b, **kw):
+    A, B = as_arr(it, a), as_arr(it, b)
+    if A.ndim != 1 or B.ndim != 1:
+        A, B = reshape(it, A, [A.size()]), reshape(it, B, [B.size()])
+    fa, fb = A.snapshot(), B.snapshot()
+    return Arr([A.shape[0], B.shape[0]], lambda idx: s_mul(fa([idx[0]]), fb([idx[1]])), "complex" if "complex" in (A.dtype, B.dtype) else ("float" if "float" in (A.dtype, B.dtype) else A.dtype))
+
+
+@ext("numpy.cumsum")
+def _np_cumsum(it, a, axis=None, **kw):
+    A = as_arr(it, a)
+    if A.ndim != 1 or (axis is not None and _axis_int(axis, 1, "cumsum") != 0):
+        raise Unsupported("numpy.cumsum on an array of rank %d" % A.ndim)
+    src = A.snapshot()
+    return Arr([A.shape[0]], lambda idx: sigma(it, [(0, r_add(idx[0], 1))], lambda k: src([k[0]]), "cumsum"), A.dtype)
+
+
+def _math1(name, fn):
+    def f(it, x):
+        if isinstance(x, Arr):
+            raise PyException("TypeError", "math.%s of an array" % name)
+        return fn(it, x)
+    return f
+
+
+EXT["math.sqrt"] = _math1("sqrt", lambda it, v: r_sqrt(v, it.ctx))
+EXT["math.exp"] = _math1("exp", lambda it, v: s_exp(v, it.ctx))
+EXT["math.cos"] = _math1("cos", uf1("cos"))
+EXT["math.sin"] = _math1("sin", uf1("sin"))
+EXT["math.log10"] = _math1("log10", uf1("log10"))
+EXT["math.log"] = _math1("log", uf1("log"))
+EXT["math.fabs"] = _math1("fabs", lambda it, v: s_abs(v, it.ctx))
+EXT["math.floor"] = _math1("floor", lambda it, v: EXT["numpy.floor"](it, v))
+EXT["math.ceil"] = _math1("ceil", lambda it, v: EXT["numpy.ceil"](it, v))
+EXT["math.gamma"] = _math1("gamma", uf1("gamma"))
+EXT["math.hypot"] = lambda it, x, y: r_sqrt(s_add(s_mul(x, x), s_mul(y, y)), it.ctx)
+EXT["numpy.hypot"] = lambda it, x, y, **kw: map2(it, x, y, lambda u, v: r_sqrt(s_add(s_mul(u, u), s_mul(v, v)), it.ctx), "float") if (isinstance(x, Arr) or isinstance(y, Arr)) else r_sqrt(s_add(s_mul(x, x), s_mul(y, y)), it.ctx)
